@@ -1245,7 +1245,7 @@ class Case(Criterion):
 
     @builder
     def when(self, criterion: Any, term: Any) -> "Case":
-        self._cases.append((criterion, self.wrap_constant(term)))
+        self._cases = self._cases + [(criterion, self.wrap_constant(term))]
 
     @builder
     def replace_table(self, current_table: Optional["Table"], new_table: Optional["Table"]) -> "Case":
